@@ -1224,3 +1224,23 @@ Proof.
   destruct (catch_level (m_read_guard g) e) as [[|?]|]; try discriminate. rewrite Hlen in Hstep.
   inversion Hstep; subst s'. split; [apply set_pc_self|reflexivity].
 Qed.
+
+(* ---- hypothetical configurations: the two repaired defects, re-introduced on top of whatever the source says *)
+Definition with_config (g : config) (hrm : list (list exn)) (dis : bool) : config := {|
+  q_read_locked := q_read_locked g; q_lock_r_guard := q_lock_r_guard g; q_open_r_guard := q_open_r_guard g;
+  q_read_guard := q_read_guard g; q_type_guard := q_type_guard g; q_type_exn := q_type_exn g; q_hash_checked := q_hash_checked g;
+  q_write_locked := q_write_locked g; q_lock_w_guard := q_lock_w_guard g;
+  i_read_locked := i_read_locked g; i_lock_guard := i_lock_guard g; i_open_r_guard := i_open_r_guard g;
+  i_read_guard := i_read_guard g; i_type_guard := i_type_guard g; i_type_exn := i_type_exn g; i_hash_checked := i_hash_checked g;
+  i_stale_rm_guard := i_stale_rm_guard g; i_hrm_guard := hrm;
+  m_locked := m_locked g; m_lock_guard := m_lock_guard g; m_read_guard := m_read_guard g;
+  m_type_guard := m_type_guard g; m_type_exn := m_type_exn g; m_outer_guard := m_outer_guard g;
+  disabled_complete := dis; rebuild_complete := rebuild_complete g |}.
+
+(* os.remove in the except handler of DatabaseData.__init__ without a guarding try *)
+Definition unguard_handler_remove (g : config) : config := with_config g [] (disabled_complete g).
+(* the cache-disabled branch building the quick info from a database whose devices were not loaded *)
+Definition disabled_not_loaded (g : config) : config := with_config g (i_hrm_guard g) false.
+
+Lemma quick_ok_with_config : forall g hrm dis, quick_ok (with_config g hrm dis) = quick_ok g.
+Proof. intros. reflexivity. Qed.
